@@ -189,5 +189,85 @@ theorem runSeqArms_lock (F : Frame inpS inpW δ) (hops : OpsSim env.ops inpS inp
       | eof => rw [hpat] at hseq; cases hseq
       | any => rw [hpat] at hseq; cases hseq
 
+/-- **Sequence arms when the split input has ended** (and the whole input has not): the first
+sequence arm breaks. -/
+theorem runSeqArms_end {fs : FlagMap} {st : StateId} {sd : StateDef} :
+    ∀ (arms : List Arm), (∀ a ∈ arms, a ∈ sd.arms) → ∀ {d : Nat} {sm : SeqMode} {ms mw mw0 : M κ} {npw0 : Nat},
+    StepCtx env.tbl fs st sd ms.c → MRel δ d 0 (fs st).2.inStep sm ms mw →
+    (sm = .none ∨ (sm = .stale ∧ (arms.any fun a => isSeqPat a.pat) = true)) →
+    ms.c.isLast = false → (0 < d → hasEoc sd = true) →
+    BrkParams inpW sd δ ms mw mw0 npw0 →
+    match runSeqArms env inpS none arms ms with
+    | .inr ms2 => ∃ mw2, MRel δ d 0 (fs st).2.inStep .none ms2 mw2 ∧
+        ms2.c = ms.c ∧ ms2.x = ms.x ∧ mw2.c = mw.c ∧ mw2.x = mw.x ∧ (leaveSeq mw2).r = (leaveSeq mw).r
+    | .inl rs => BreakOut env.tbl fs env.ops inpS inpW δ d ms.x mw0 rs := by
+  intro arms
+  induction arms with
+  | nil =>
+    intro _ d sm ms mw mw0 npw0 cx hrel hsm _ _ _
+    rcases hsm with hsm | ⟨_, hh⟩
+    · subst hsm
+      exact ⟨mw, hrel, rfl, rfl, rfl, rfl, rfl⟩
+    · simp at hh
+  | cons arm rest ih =>
+    intro hsub d sm ms mw mw0 npw0 cx hrel hsm hl hdebt hbp
+    have hsubr : ∀ a ∈ rest, a ∈ sd.arms := fun a ha => hsub a (List.mem_cons_of_mem _ ha)
+    cases hseq : isSeqPat arm.pat with
+    | false =>
+      rw [runSeqArms_skip inpS none arm rest ms hseq]
+      refine ih hsubr cx hrel ?_ hl hdebt hbp
+      rcases hsm with h | ⟨h1, h2⟩
+      · exact Or.inl h
+      · simp only [List.any_cons, hseq, Bool.false_or] at h2
+        exact Or.inr ⟨h1, h2⟩
+    | true =>
+      have hP : (fs st).2.inStep.P = true := rfl
+      obtain ⟨he, hcs, hxs, hcw, hxw⟩ := enterSeq_sim hrel hP
+      obtain ⟨hlv, hlcs, hlxs, hlcw, hlxw⟩ := leaveSeq_sim he
+      have hinSeq : hasSeq sd = true := by
+        unfold hasSeq
+        rw [List.any_eq_true]
+        exact ⟨arm, hsub arm List.mem_cons_self, hseq⟩
+      cases hpat : arm.pat with
+      | chSeq bytes ic =>
+        cases bytes with
+        | nil =>
+          rw [runSeqArms_seq_nil inpS none arm rest ms ic hpat]
+          have hcs' : (leaveSeq (enterSeq ms)).c = ms.c := hlcs.trans hcs
+          have hxs' : (leaveSeq (enterSeq ms)).x = ms.x := hlxs.trans hxs
+          have hcw' : (leaveSeq (enterSeq mw)).c = mw.c := hlcw.trans hcw
+          have hxw' : (leaveSeq (enterSeq mw)).x = mw.x := hlxw.trans hxw
+          have hrw' : (leaveSeq (leaveSeq (enterSeq mw))).r = (leaveSeq mw).r := by
+            rw [leaveSeq_idem, leaveSeq_enterSeq_r]
+          have := ih hsubr (sm := .none) (ms := leaveSeq (enterSeq ms)) (mw := leaveSeq (enterSeq mw)) (mw0 := mw0) (npw0 := npw0)
+            (by rw [hcs']; exact cx) hlv (Or.inl rfl) (by rw [hcs']; exact hl) hdebt (hbp.congr hcs' hcw' hxw' hrw')
+          revert this
+          cases runSeqArms env inpS none rest (leaveSeq (enterSeq ms)) with
+          | inr ms2 =>
+            rintro ⟨mw2, e2, e3, e4, e5, e6, e7⟩
+            exact ⟨mw2, e2, e3.trans hcs', e4.trans hxs', e5.trans hcw', e6.trans hxw', e7.trans hrw'⟩
+          | inl rs =>
+            intro h
+            rw [hxs'] at h
+            exact h
+        | cons e0 es =>
+          rw [runSeqArms_seq inpS none arm rest ms e0 es ic hpat]
+          have hf : firstOf inpS none e0 es ic (enterSeq ms).c.isLast (enterSeq ms).c.nextPos = .needMore := by
+            unfold firstOf
+            rw [hcs, hl]; rfl
+          rw [hf]
+          simp only
+          have hbp' := hbp.congr (ms' := enterSeq ms) (mw' := enterSeq mw) hcs hcw hxw (by rw [leaveSeq_enterSeq_r])
+          exact breakOut_of_split (by rw [hcs]; exact cx) he (by rw [hcs]; exact hl) (Or.inr ⟨rfl, hinSeq⟩)
+            hdebt npw0 hbp'.np hbp'.skip hbp'.c0 hbp'.x0 hbp'.r0 ms.x
+            (by rw [hxs]) (by rw [hxs]) (Or.inl ⟨rfl, by rw [hxs]⟩)
+      | byte b => rw [hpat] at hseq; cases hseq
+      | alpha => rw [hpat] at hseq; cases hseq
+      | whitespace => rw [hpat] at hseq; cases hseq
+      | closingQuote => rw [hpat] at hseq; cases hseq
+      | eoc => rw [hpat] at hseq; cases hseq
+      | eof => rw [hpat] at hseq; cases hseq
+      | any => rw [hpat] at hseq; cases hseq
+
 end
 end LolHtml.Model.Chunk
